@@ -208,8 +208,18 @@ class Gen:
         raise AnalysisError(f"emission idiom {idiom} cannot be judged for parenthesisation")
 
     def eval_pred(self, lam, child, parent_op, reduce):
+        if isinstance(lam, ast.Name):
+            # a named local predicate: `def pred(d): return <expr>` in the enclosing visitor
+            cur = lam
+            while cur is not None and not isinstance(cur, ast.FunctionDef):
+                cur = getattr(cur, "_parent", None)
+            defs = [f for f in ast.walk(cur) if isinstance(f, ast.FunctionDef) and f.name == lam.id and f is not cur] if cur is not None else []
+            body = [st for st in defs[0].body if not (isinstance(st, ast.Expr) and isinstance(st.value, ast.Constant))] if len(defs) == 1 else []
+            if len(body) == 1 and isinstance(body[0], ast.Return) and body[0].value is not None and defs[0].args.args:
+                return self._ev(body[0].value, defs[0].args.args[0].arg, child, parent_op, reduce)
+            raise AnalysisError(f"parenthesisation predicate `{lam.id}` is not a one-expression local function")
         if not isinstance(lam, ast.Lambda):
-            raise AnalysisError("parenthesisation predicate is not a lambda")
+            raise AnalysisError("parenthesisation predicate is neither a lambda nor a local one-expression function")
         dvar = lam.args.args[0].arg
         return self._ev(lam.body, dvar, child, parent_op, reduce)
 
